@@ -74,9 +74,9 @@ theorem head_stmt (s : SS) (hw : s.wf = true) :
     simp only [Bool.and_eq_true, beq_iff_eq] at hw'
     exact ⟨t, _, rfl, by rw [hw'.1]; decide, by rw [hw'.1]; decide, by rw [hw'.1]; decide⟩
   | ret t v =>
-    have hw' : (t.type == .return_ && v.wf) = true := by simpa [SS.wf] using hw
+    have hw' : (t.type == .return_ && v.wf && !(v.toks.headD lpT).nl) = true := by simpa [SS.wf] using hw
     simp only [Bool.and_eq_true, beq_iff_eq] at hw'
-    exact ⟨t, _, rfl, by rw [hw'.1]; decide, by rw [hw'.1]; decide, by rw [hw'.1]; decide⟩
+    exact ⟨t, _, rfl, by rw [hw'.1.1]; decide, by rw [hw'.1.1]; decide, by rw [hw'.1.1]; decide⟩
   | retN t =>
     have hw' : (t.type == .return_) = true := by simpa [SS.wf] using hw
     simp only [beq_iff_eq] at hw'
@@ -298,17 +298,18 @@ theorem case_letN (hc : BaseCfg cfg) (t name : Token) (hw : (SS.letN t name).wf 
 theorem case_ret (hc : BaseCfg cfg) (t : Token) (v : SE) (hw : (SS.ret t v).wf = true) (ih : Main cfg v) :
     StmtMain cfg (.ret t v) := by
   intro st rest hr ht _
-  have hw' : (t.type == .return_ && v.wf) = true := by simpa [SS.wf] using hw
-  simp only [Bool.and_eq_true, beq_iff_eq] at hw'
-  obtain ⟨hty, hwv⟩ := hw'
+  have hw' : (t.type == .return_ && v.wf && !(v.toks.headD lpT).nl) = true := by simpa [SS.wf] using hw
+  simp only [Bool.and_eq_true, beq_iff_eq, Bool.not_eq_true'] at hw'
+  obtain ⟨⟨hty, hwv⟩, hnl⟩ := hw'
   obtain ⟨a, as, has, hpre⟩ := head_prefix v hwv
   have hpt := prefix_types a.type hpre
   have ht0 : st.toks = t :: (a :: (as ++ semiT :: rest)) := by rw [ht]; simp [SS.toks, has]
   have hcur : st.cur = t := cur_of_toks ht0
   have h1 : st.next.toks = v.toks ++ semiT :: rest := by rw [next_toks_cons ht0, has]; simp
   obtain ⟨he, last, hl⟩ := expr_then hc v hwv ih _ semiT rest (Or.inl rfl) h1
-  have hgo : (st.peek.type != TokType.semicolon && st.peek.type != TokType.eof && st.peek.type != TokType.rbrace) = true := by
-    rw [peek_of_toks ht0]; simp [hpt.1, hpt.2.1, hpt.2.2.2.1]
+  have hnl' : a.nl = false := by rw [has] at hnl; simpa using hnl
+  have hgo : (st.peek.type != TokType.semicolon && st.peek.type != TokType.eof && st.peek.type != TokType.rbrace && !st.peek.nl) = true := by
+    rw [peek_of_toks ht0]; simp [hpt.1, hpt.2.1, hpt.2.2.2.1, hnl']
   rw [stmtI_nil hc, base_return st (by rw [hcur]; exact hty), parseReturnStatement]
   simp only [hgo, if_true, he, Option.bind_eq_bind, Option.bind_some]
   obtain ⟨r0, rs, hrs⟩ := List.exists_cons_of_ne_nil hr
@@ -324,7 +325,7 @@ theorem case_retN (hc : BaseCfg cfg) (t : Token) (hw : (SS.retN t).wf = true) : 
   have hty : t.type = .return_ := by simpa [SS.wf] using hw
   have ht0 : st.toks = t :: semiT :: rest := by rw [ht]; simp [SS.toks]
   have hcur : st.cur = t := cur_of_toks ht0
-  have hgo : (st.peek.type != TokType.semicolon && st.peek.type != TokType.eof && st.peek.type != TokType.rbrace) = false := by
+  have hgo : (st.peek.type != TokType.semicolon && st.peek.type != TokType.eof && st.peek.type != TokType.rbrace && !st.peek.nl) = false := by
     rw [peek_of_toks ht0]; rfl
   rw [stmtI_nil hc, base_return st (by rw [hcur]; exact hty), parseReturnStatement]
   simp only [hgo, Bool.false_eq_true, if_false]
